@@ -590,6 +590,14 @@ func (runInfo *runInfoStruct) invokeNilCoalescingOpExpr(expr *ast.NilCoalescingO
 		}
 	} else {
 		runInfo.err = nil
+		// an interrupted left side must not be swallowed
+		select {
+		case <-runInfo.ctx.Done():
+			runInfo.rv = nilValue
+			runInfo.err = ErrInterrupt
+			return
+		default:
+		}
 	}
 	runInfo.expr = expr.RHS
 	runInfo.invokeExpr()
